@@ -60,6 +60,13 @@ class MethodMixin:
         reg(hasattr, self.b_hasattr)
         reg(type, self.b_type)
         reg(sum, self.b_sum)
+        import time as _time
+        reg(_time.time, lambda a, k, n, f: (self.path.trace.append(('time.time',)), self.path.fresh(INT, 'now'))[1])
+        reg(super, self.b_super)
+        import sys as _sys
+        def _exit(a, k, n, f):
+            raise PyRaise(SystemExit, tuple(a), n)
+        reg(_sys.exit, _exit)
         import os.path
         reg(os.path.isabs, lambda a, k, n, f: os.path.isabs(a[0]) if not is_sym(a[0]) else self.ufun('py_isabs', STR, z3.BoolSort())(a[0]))
         for nm in ('match', 'fullmatch', 'search'):
@@ -346,6 +353,22 @@ class MethodMixin:
                 return bool
         raise Unsupported('type() of symbolic value')
 
+    def b_super(self, a, k, n, f):
+        """zero-argument super(): the next class after the defining class in the MRO of self"""
+        fr = f
+        while fr is not None and (fr.fs is None or not fr.fs.cls):
+            fr = fr.parent
+        if fr is None or 'self' not in fr.env:
+            raise Unsupported('super() outside a method')
+        obj = fr.env['self']
+        if not isinstance(obj, VStruct) or obj.pycls is None:
+            raise Unsupported('super() on a non-object')
+        mro = obj.pycls.__mro__
+        here = [i for i, c in enumerate(mro) if c.__name__ == fr.fs.cls]
+        if not here:
+            raise Unsupported('defining class not in the MRO of self')
+        return SuperProxy(obj, mro[here[0] + 1:])
+
     def b_sum(self, a, k, n, f):
         items = self.concrete_iter(a[0], n)
         res = a[1] if len(a) > 1 else 0
@@ -387,6 +410,14 @@ class MethodMixin:
             return self.m_str(recv, name, args, kwargs, node)
         if z3.is_expr(recv) and isinstance(recv.sort(), z3.SeqSortRef):
             return self.m_seq(recv, name, args, kwargs, node)
+        if z3.is_expr(recv) and recv.sort().name() in self.zs.enum_by_sort:
+            srt, terms, objs, S = self.zs.enum_by_sort[recv.sort().name()]
+            cls = type(next(iter(objs.values())))
+            fn = getattr(cls, name, None)
+            import types as _t
+            if isinstance(fn, _t.FunctionType):
+                return self.call_function(fn, [recv] + list(args), kwargs, node)
+            raise Unsupported(f'method {name} on an enum value')
         if isinstance(recv, (tuple, list, set, frozenset, dict)):
             if name == 'index' and isinstance(recv, (tuple, list)):
                 raise Unsupported('tuple.index with symbolic argument')
@@ -645,6 +676,11 @@ class MethodMixin:
 
 class PySet(set):
     pass
+
+
+class SuperProxy:
+    def __init__(self, obj, mro):
+        self.obj, self.mro = obj, mro
 
 
 class SymRange:
